@@ -176,6 +176,14 @@ class C15(Check):
                                 if env.quick and n == 3 and (i // env.nshards) % 3:
                                     continue
                                 yield {"calls": list(kinds), "fault_at": pos, "fault": fault, "k": k, "end": end, "filter": "copy" if i % 2 else "lzma2"}
+        # the same faults with a multi-volume target
+        for kinds in (["writestr", "writef", "writestr"], ["writestr", "write", "writestr"], ["write", "writestr"], ["writef"]):
+            for pos in range(len(kinds)):
+                for fault in FAULTS[kinds[pos]]:
+                    for k in ([0, 4096] if fault == "read-fails" else [0]):
+                        i += 1
+                        if env.mine(i):
+                            yield {"calls": list(kinds), "fault_at": pos, "fault": fault, "k": k, "end": "close", "filter": "copy", "target": "multivolume"}
         # zero-length sources that cannot be opened
         for n in (1, 2):
             for kinds in itertools.product(["write", "writestr"], repeat=n):
@@ -215,7 +223,7 @@ class C15(Check):
         calls, pos, fault, k = case["calls"], case["fault_at"], case["fault"], case["k"]
         out.nontrivial = len(calls) >= 2
         out.descriptor = (tuple(calls), pos, fault, k if fault == "read-fails" else None, case["end"], case["filter"])
-        out.label("fault:" + fault, "call:" + calls[pos], "n=%d" % len(calls), "end:" + case["end"])
+        out.label("fault:" + fault, "call:" + calls[pos], "n=%d" % len(calls), "end:" + case["end"], "target:" + case.get("target", "bytesio"))
         out.sample = dict(case)
         env.state["k"] += 1
         work = env.tmpdir("c15-")
@@ -267,7 +275,15 @@ class C15(Check):
             if fault == "special-file":
                 os.unlink(p)
                 os.mkfifo(p)  # neither file, directory nor link: the call is refused
-            z = py7zr.SevenZipFile(bio, "w", filters=filters)
+            mv = None
+            if case.get("target") == "multivolume":
+                # a target that supports neither truncate() nor much else: what a failed call leaves behind must not depend on it
+                import multivolumefile
+
+                mv = multivolumefile.MultiVolume(os.path.join(work, "v.7z"), mode="wb", volume=1 << 20)
+                z = py7zr.SevenZipFile(mv, "w", filters=filters)
+            else:
+                z = py7zr.SevenZipFile(bio, "w", filters=filters)
             try:
                 with inject(target_path, fault, k, counter):
                     for i, (c, p, name, data) in enumerate(plans):
@@ -359,7 +375,13 @@ class C15(Check):
                     if counter["opens"] > snapshot["opens"] or counter["reads"] > snapshot["reads"]:
                         out.violate(dict(sig, kind="failed-source-touched-again"), observed={"after": dict(counter), "at_failure": snapshot}, expected="no further open/read")
             # ---- what is in the archive
-            data_bytes = bio.getvalue()
+            if mv is not None:
+                mv.close()
+                import glob as _g
+
+                data_bytes = b"".join(open(pth, "rb").read() for pth in sorted(_g.glob(os.path.join(work, "v.7z.*"))))
+            else:
+                data_bytes = bio.getvalue()
             try:
                 with py7zr.SevenZipFile(io.BytesIO(data_bytes)) as r:
                     names = r.getnames()
